@@ -133,6 +133,20 @@ def run(ctx):
                         ctx.count("rejected")
                         continue
                     check_fixed_point(ctx, u, {"op": op}, ("kernel-brackets", sch, odd[:6], tail[:2]))
+        # accepted input with the junk the parser is documented to drop (leading C0/space, TAB/CR/LF anywhere) at EVERY position of
+        # a few URLs - inside the scheme, next to each delimiter, inside the port and the brackets: what the parser makes of it must
+        # still be a fixed point (and a URL whose first path segment holds a ':' only because scheme detection failed is not D13)
+        for base_s in ("http://user:pw@example.com:8080/a/b?x=1#frag", "HTTP://example.com/a", "wss://[::1]:443/chat", "svn+ssh://example.com/repo", "foo:bar/baz", "//h:1/p"):
+            for pos in range(len(base_s) + 1):
+                for junk in ("\t", "\r", "\n", "\r\n"):
+                    for enc_ in (False, True):
+                        op = {"op": "ctor", "s": base_s[:pos] + junk + base_s[pos:], "encoded": enc_}
+                        u = guarded(apply, op)
+                        n += 1
+                        if is_exc(u):
+                            ctx.count("rejected")
+                            continue
+                        check_fixed_point(ctx, u, {"op": op}, ("kernel-junk", base_s[:4], min(pos, 12), junk, enc_))
         from ..gen import long_urls
 
         for s in long_urls():
